@@ -322,7 +322,7 @@ class SymExec:
 
     MAX_INLINE_DEPTH = 6
 
-    def __init__(self, tu, own=lambda f: False, inline_stmt=None, recognise_search=False, recognise_loops=False):
+    def __init__(self, tu, own=lambda f: False, inline_stmt=None, recognise_search=False, recognise_loops=False, flatten=()):
         """own(fn entry) -> may calls to this function be replaced by its returned value when it is a
         single-path function without side effects?
         inline_stmt(fn entry) -> follow calls to this function: its paths are spliced into the caller's paths (its
@@ -334,6 +334,10 @@ class SymExec:
         self.own = own
         self.inline_stmt = inline_stmt or (lambda f: False)
         self.recognise_search = recognise_search
+        # names of data members that are small aggregates held by value (struct { T *first; size_t count; } items): their members are
+        # read and written as members `items.first` / `items.count` of the enclosing object, and an assignment of the whole aggregate
+        # is the assignment of each of them
+        self.flatten = frozenset(flatten)
         self.recognise_loops = recognise_loops     # whole-loop idioms (cursor search, shift-down compaction) are replaced by the algorithm they are
         self._loops = {}
         self._pure = {}
@@ -478,6 +482,11 @@ class SymExec:
             if e.get('isArrow') or not ks:
                 base = mk_deref(base)
             name = e.get('name')
+            if self.flatten:
+                ub = unver(base)
+                if isinstance(ub, tuple) and len(ub) == 3 and ub[0] == 'field' and ub[2] in self.flatten:
+                    name = '%s.%s' % (ub[2], name)
+                    base = base[1]
             place = ('field', unver(base), name)
             if self.is_place(place):
                 return ('field', base, name, self.place_version(place, st))
@@ -612,8 +621,30 @@ class SymExec:
             return neg
         v = st.known.get(c)        # keyed with versions: the same test after a mutation of what it reads is a new test
         if v is None:
+            v = self._derived_fact(c, st)
+        if v is None:
             return None
         return (not v) if neg else v
+
+    def _derived_fact(self, c, st):
+        """`(*L).get() == nullptr` is false when L = find_if(first, last, pred) did not fail and pred dereferences the element
+        (`p->member`): the predicate held for *L, so *L was dereferenced on the way here"""
+        if not (isinstance(c, tuple) and len(c) == 3 and c[0] == 'eq' and ('null',) in c[1:]):
+            return None
+        x = c[2] if c[1] == ('null',) else c[1]
+        L = None
+        if isinstance(x, tuple) and len(x) == 3 and x[0] == 'call' and last(str(x[1])) == 'get' and isinstance(x[2], tuple) and x[2][:1] == ('deref',):
+            L = x[2][1]
+        elif isinstance(x, tuple) and len(x) == 2 and x[0] == 'addr' and isinstance(x[1], tuple) and x[1][:1] == ('deref',) \
+                and isinstance(x[1][1], tuple) and x[1][1][:1] == ('deref',):
+            L = x[1][1][1]
+        if not (isinstance(L, tuple) and len(L) == 6 and L[:3] == ('call', 'std::find_if', None) and isinstance(L[5], tuple) and L[5][0] == 'pred'):
+            return None
+        if not contains(L[5][1], ('deref', ('lparam', 0))):
+            return None
+        if st.known.get(mk_eq(L, L[4])) is False:
+            return False
+        return None
 
     def call_name(self, sd, call=None):
         """resolved name of a callee without the template arguments of its class; the template arguments of a
@@ -1040,6 +1071,11 @@ class SymExec:
                 ev.place = unver(self.call_obj(n, obj, st))   # the object the member is called on
             ev.value = tuple(self.args_nf(sd, args, st, 0))
             st.events.append(ev)
+            if self.flatten and last(self.call_name(sd)) == 'operator=' and obj is not None and len(args) == 1 and sd.get('rec'):
+                pl = unver(self.call_obj(n, obj, st))
+                if isinstance(pl, tuple) and len(pl) == 3 and pl[0] == 'field' and pl[2] in self.flatten and self.is_place(pl):
+                    if self._aggregate_store(n, pl, ev.value[0], self.ct(obj), st, nc, depth):
+                        return      # the assignment of the aggregate is the assignment of its members
             if follow:
                 ev.inlined = True
                 this_nf = self.call_obj(n, obj, st) if (sd.get('rec') and not callee.get('static')) else st.this
@@ -1085,6 +1121,74 @@ class SymExec:
             if rebind is not None:
                 st.env[rebind[0]] = rebind[1]
             return
+
+    def _aggregate_members(self, val, ct, st, depth=0):
+        """{member name: value} of a by-value aggregate of record type ct whose value is val, or None"""
+        tu = self.tu
+        rec = tu.records_by_type.get(ct.replace('const ', '').strip())
+        if rec is None or depth > 4:
+            return None
+        names = [f_['name'] for f_ in rec['fields']]
+        v = unver(val)
+        if isinstance(v, tuple) and len(v) == 3 and v[0] == 'field' and v[2] in self.flatten:
+            return {nm: ('field', val[1], '%s.%s' % (v[2], nm)) for nm in names}
+        if isinstance(v, tuple) and v and v[0] == 'cond' and len(v) == 4:
+            a = self._aggregate_members(val[2], ct, st, depth + 1)
+            b = self._aggregate_members(val[3], ct, st, depth + 1)
+            if a is None or b is None:
+                return None
+            return {nm: (a[nm] if a[nm] == b[nm] else ('cond', val[1], a[nm], b[nm])) for nm in names}
+        if isinstance(v, tuple) and len(v) >= 2 and v[0] == 'construct':
+            args = list(val[2:])
+            if len(args) == 1 and self._same_class(str(v[1]), ct):
+                inner = self._aggregate_members(args[0], ct, st, depth + 1)      # copy of another aggregate value
+                if inner is not None:
+                    return inner
+            out = {}
+            ctors = [f_ for f_ in tu.functions.values() if f_.get('recid') == rec['id'] and f_.get('ctor') and not f_['dep']
+                     and len(f_.get('params', [])) == len(args) and tu.cfg(f_) is not None and (args or f_.get('ctor') == 'default' or True)]
+            ctors = [f_ for f_ in ctors if f_.get('ctor') not in ('copy', 'move') or args]
+            if len(ctors) == 1:
+                try:
+                    ps = self.paths(ctors[0], this=('agg',), args=tuple(args))
+                except Unsupported:
+                    return None
+                if len(ps) != 1:
+                    return None
+                for ev in ps[0].events:
+                    if ev.kind == 'init' and ev.how in names and unver(ev.value) != ('definit',):
+                        out[ev.how] = ev.value
+                    elif ev.kind in ('store', 'mutate'):
+                        return None
+            elif args:
+                return None
+            for f_ in rec['fields']:         # members the constructor leaves to their default member initialiser
+                if f_['name'] in out:
+                    continue
+                fd = tu.node(f_.get('id'))
+                ks = [x for x in tu.kids(fd)] if fd is not None else []
+                if not ks:
+                    return None
+                iv = self.nf(ks[-1], st)
+                if unver(iv) == ('construct', f_['ct']) or (isinstance(unver(iv), tuple) and unver(iv)[0] == 'construct' and len(unver(iv)) == 3):
+                    iv = unver(iv)[2] if len(unver(iv)) == 3 else (('null',) if f_['ct'].endswith('*') else ('const', 0))
+                out[f_['name']] = iv
+            return out
+        return None
+
+    def _aggregate_store(self, n, place, val, ct, st, nc, depth):
+        mem = self._aggregate_members(val, ct, st)
+        if mem is None:
+            return False
+        for nm, v in mem.items():
+            pl = ('field', place[1], '%s.%s' % (place[2], nm))
+            sev = Event('store', n, nf=pl, place=pl, value=v, conds_n=nc)
+            sev.depth = depth
+            sev.ver = dict(st.ver)
+            st.events.append(sev)
+        for nm in mem:
+            self.bump(('field', place[1], '%s.%s' % (place[2], nm)), st)
+        return True
 
     def on_init(self, e, st, depth=0):
         tu = self.tu
